@@ -1205,7 +1205,7 @@ func encodeCmdRun(c *run.Ctx, r *kit.Rng, s *kit.Summary, n int) {
 func autoDetectRun(c *run.Ctx, r *kit.Rng, s *kit.Summary, n int) {
 	names := []string{"gob", "json", "csv"}
 	totals := []int{4096, 32768, 65536, 1 << 20}
-	firsts := []int{20000, 26000, 33000, 50000, 70000}
+	firsts := []int{20000, 26000, 33000, 50000, 70000, 1200000} // the last one: a first record beyond 1 MiB
 	haveVegeta := false
 	if _, err := os.Stat(c.Vegeta); err == nil {
 		haveVegeta = true
@@ -1248,6 +1248,9 @@ func autoDetectRun(c *run.Ctx, r *kit.Rng, s *kit.Summary, n int) {
 			what = fmt.Sprintf("first record of about %d bytes", f)
 			x := mk(40)
 			kind := gen.BigFieldKinds[(i/6)%len(gen.BigFieldKinds)]
+			if f > 200000 {
+				kind = "body"
+			}
 			gen.Inflate(r, &x, kind, f, gen.TextOpts{})
 			what += " (" + kind + ")"
 			rs = append(rs, x)
